@@ -131,6 +131,9 @@ var redirectTable = map[string][2]string{
 	"(*github.com/jackc/pgx/v5/pgxpool.Pool).Exec":        {repoMod + "/shovel", "zzPoolExec"},
 	"(*" + repoMod + "/jrpc2.URL).String":                 {repoMod + "/jrpc2", "zzURLString"},
 	"(*" + repoMod + "/jrpc2.URL).Hostname":               {repoMod + "/jrpc2", "zzURLHostname"},
+	repoMod + "/jrpc2.MustURL":                            {repoMod + "/jrpc2", "zzMustURL"},
+	repoMod + "/shovel/config.Integrations":               {repoMod + "/shovel/config", "zzDBIntegrations"},
+	repoMod + "/shovel/config.Sources":                    {repoMod + "/shovel/config", "zzDBSources"},
 	"github.com/kr/session.Get":                           {repoMod + "/shovel/web", "zzSessionGet"},
 	"github.com/kr/session.Set":                           {repoMod + "/shovel/web", "zzSessionSet"},
 	"net/http.Redirect":                                   {repoMod + "/shovel/web", "zzRedirect"},
@@ -185,6 +188,26 @@ var nativeCuts = []nativeCut{
 		Old:  "task.pgp.Begin(ctx)",
 		New:  "zzPoolBegin(task.pgp, ctx)",
 		All:  true,
+		Repl: [][2]string{{"t.pgp.Exec(t.ctx, fmt.Sprintf(", "zzPoolExec(t.pgp, t.ctx, fmt.Sprintf("}},
+	},
+	{
+		Pkg:  "shovel/config",
+		File: "shovel/config/config.go",
+		Old:  "func Integrations(ctx context.Context, pg wpg.Conn) ([]Integration, error) {",
+		New:  "func zzOrigIntegrations(ctx context.Context, pg wpg.Conn) ([]Integration, error) {",
+		Repl: [][2]string{{"func Sources(ctx context.Context, pgp *pgxpool.Pool) ([]Source, error) {", "func zzOrigSources(ctx context.Context, pgp *pgxpool.Pool) ([]Source, error) {"}},
+		Wrapper: `package config
+
+import (
+	"context"
+
+	"github.com/indexsupply/shovel/wpg"
+	"github.com/jackc/pgx/v5/pgxpool"
+)
+
+func Integrations(ctx context.Context, pg wpg.Conn) ([]Integration, error) { return zzDBIntegrations(ctx, pg) }
+func Sources(ctx context.Context, pgp *pgxpool.Pool) ([]Source, error)    { return zzDBSources(ctx, pgp) }
+`,
 	},
 	{
 		Pkg:  "jrpc2",
